@@ -495,6 +495,46 @@ void Sim::schedule_step(size_t i, ns_t at) {
     }, true);
 }
 
+uint64_t Sim::abstract_state() {
+    auto cap = [](size_t v, size_t m) { return (uint64_t)std::min(v, m); };
+    uint64_t f[16] = {0}; int n = 0;
+    f[n++] = !client ? 0 : running ? 2 : 1;
+    uint64_t phase = 0, rm = 0, wr = 0, rd = 0;
+    if (!net.conns.empty()) {
+        auto& c = *net.conns.back();
+        bk::BConn* bc = broker.bc(c.id);
+        if (c.client_closed || c.st == sim::Conn::failed || c.st == sim::Conn::closed) phase = resolver.pending > 0 ? 6 : 5;
+        else if (c.st == sim::Conn::connecting) phase = 1;
+        else if (c.dead || c.fin_arrived || c.broker_closed || c.blackhole) phase = 4;
+        else if (bc && bc->phase == bk::BConn::established) phase = 3;
+        else phase = 2;
+        if (bc && bc->caps.recv_max && phase == 3) rm = bc->inflight.size() >= *bc->caps.recv_max ? 2 : 1;
+        wr = c.write_op ? (c.write_blocked ? 2 : 1) : 0;
+        rd = c.read_op ? 1 : 0;
+    } else if (resolver.pending > 0) phase = 6;
+    f[n++] = phase; f[n++] = rm; f[n++] = wr; f[n++] = rd;
+    size_t q0 = 0, q1 = 0, q2 = 0, su = 0, rc = 0, di = 0, cancelled = 0;
+    for (auto& o : ops) {
+        if (!o.dones.empty()) continue;
+        if (o.caller_cancelled) ++cancelled;
+        switch (o.kind) {
+        case OpKind::publish: (o.qos == 0 ? q0 : o.qos == 1 ? q1 : q2)++; break;
+        case OpKind::subscribe: case OpKind::unsubscribe: ++su; break;
+        case OpKind::receive: ++rc; break;
+        case OpKind::disconnect: ++di; break;
+        default: break;
+        }
+    }
+    f[n++] = cap(q0, 1); f[n++] = cap(q1, 3); f[n++] = cap(q2, 3); f[n++] = cap(su, 2); f[n++] = cap(rc, 2); f[n++] = cap(di, 1); f[n++] = cap(cancelled, 1);
+    f[n++] = cap(broker.session.outq.size(), 2);
+    f[n++] = cap(sim::TimerRegistry::pending_deadlines().size(), 5);
+    f[n++] = healed ? 1 : 0;
+    f[n++] = cap((size_t)svc_gen, 2);
+    uint64_t h = 0;
+    for (int i = 0; i < n; ++i) h = h * 7 + f[i];       // every field is below 7: an exact mixed-radix code
+    return h;
+}
+
 void Sim::execute() {
     uint64_t budget = (uint64_t)plan.knobs.max_steps;
     uint64_t used = 0;
@@ -502,6 +542,7 @@ void Sim::execute() {
         // returns false when idle up to horizon
         auto r = w.step(horizon);
         ++used;
+        if (r == sim::World::StepResult::advanced && ops.size() < 2000) abstract_states.insert(abstract_state());
         // arm pending connection faults on a freshly established connection
         if (!conn_faults_for_next.empty() && !healed) {
             if (sim::Conn* c = current_conn()) {
